@@ -25,7 +25,7 @@ PROPS = {
             "rule": "exhaustive route tables over the pattern universe x all hosts, each lookup repeated 50 times, plus random larger tables; " + SIDE_NOTE},
     "C19": {"lean": ["C19"], "expected": ["K19", "Globals"], "streams": [{"name": "res", "gen": "res"}, {"name": "pipe", "gen": "pipe", "args": {"focus": "dialogs"}}],
             "rule": "exhaustive and random resolution-outcome histories fed to addressResolved with real UDP/TCP backends; " + SIDE_NOTE},
-    "C15": {"lean": ["C15"], "expected": ["K15", "Globals"], "also": ["C04"], "streams": [{"name": "pins", "gen": "pins"}, {"name": "pipe", "gen": "pipe", "args": {"focus": "dialogs"}}, {"name": "wire", "gen": "wire", "args": {"focus": "c15"}}],
+    "C15": {"lean": ["C15"], "expected": ["K15", "Globals"], "also": ["C04"], "streams": [{"name": "pins", "gen": "pins"}, {"name": "pipe", "gen": "pipe", "args": {"focus": "dialogs"}}, {"name": "wire", "gen": "wire", "args": {"focus": "c15"}}, {"name": "cfg", "gen": "cfg", "args": {"focus": "timeout"}}],
             "rule": "seeded pin/lookup/terminate/wait histories on the real DialogBasedBackend under a virtual clock; " + SIDE_NOTE},
     "C20": {"lean": ["C20"], "expected": ["K20", "Globals"], "streams": [{"name": "send", "gen": "send"}],
             "rule": "exhaustive fault patterns: cached connection script x reconnectable path x listener up/down per message, sequences of 1-3 messages, for TCPClientTransport, FailOverClientTransport and TCPBackend; " + SIDE_NOTE},
